@@ -62,6 +62,13 @@ def gen(params):
                 if rnd.random() < params.get("keep", 1.0):
                     yield P(prog)
     # IPv4 / IPv6 spellings (incl. model-dumped ones passed in by the property module)
+    # the longest spellings an IPv6 address has: every group zero-padded, the low 32 bits as a dotted quad (40-45 characters)
+    long6 = ["0000:0000:0000:0000:0000:ffff:10.0.100.1", "0000:0000:0000:0000:0000:0000:255.255.255.255",
+             "2001:0db8:0000:0000:0000:ff00:192.168.100.200", "0000:0000:0000:0000:0000:ffff:255.255.255.255%25eth0",
+             "fe80:0000:0000:0000:0204:61ff:254.157.241.86"]
+    for h in long6:
+        for prog in progs_for_host(h, rnd):
+            yield P(prog)
     v4 = ["1.2.3.4", "255.255.255.255", "256.1.1.1", "01.2.3.4", "1.2.3", "1.2.3.4.5", "0.0.0.0", "1.2.3.4%5", "127.1"]
     for h in v4 + list(ipv6_spellings(rnd, params["nv6"])) + params.get("extra_hosts", []):
         for prog in progs_for_host(h, rnd):
@@ -69,7 +76,8 @@ def gen(params):
     # NFKC delimiters exhaustively x authority positions x both constructor modes
     for ch in nfkc_delims():
         for s in ("http://" + ch + "@h/", "http://u:" + ch + "@h/", "http://a" + ch + "b/", "http://u@h" + ch + ":80/",
-                  "//" + ch, "http://h/" + ch, "http://u" + ch + "x:p@h/p?q"):
+                  "//" + ch, "http://h/" + ch, "http://u" + ch + "x:p@h/p?q",
+                  "http://[fe80::1%eth" + ch + "0]/", "http://u@[::1%25" + ch + "]:81/p", "http://[" + ch + "]/"):
             for enc in (False, True):
                 yield P([{"op": "ctor", "s": T(s), "encoded": enc}])
         for prog in progs_for_host(ch, rnd):
